@@ -41,8 +41,8 @@ import common  # noqa: E402
 from common import run_driver, bg  # noqa: E402
 
 ID = 'C16'
-LEAN_MODULES = ['Py65.Props.C16']
-NAMESPACES = ['Py65.Props.C16']
+LEAN_MODULES = ['Py65.Props.C16', 'Py65.Proofs.MonFillGenEq', 'Py65.Props.C16g']
+NAMESPACES = ['Py65.Props.C16', 'Py65.Proofs.MonFillGenEq', 'Py65.Props.C16g']
 LEVEL = 'proof'
 USES_PROLOGUE = True
 USES_GEN = False
@@ -51,6 +51,11 @@ EXPECTED_THEOREMS = [
     'Py65.Props.C16.load_data_spec', 'Py65.Props.C16.load_rejects',
     'Py65.Props.C16.save_exact', 'Py65.Props.C16.save_load_roundtrip',
     'Py65.Props.C16.mem_exact', 'Py65.Props.C16.mem_reads_cells',
+    # tie by regeneration: generated `_fill` = hand model, and the fill/load theorems restated for it
+    'Py65.Proofs.MonFillGenEq.while1_eq', 'Py65.Proofs.MonFillGenEq.fill_eq', 'Py65.Proofs.MonFillGenEq.fill_diverges',
+    'Py65.Proofs.MonFillGenEq.doFill_eq',
+    'Py65.Props.C16g.fill_exact', 'Py65.Props.C16g.fill_exact_aliasing', 'Py65.Props.C16g.fill_needs_range',
+    'Py65.Props.C16g.load_exact', 'Py65.Props.C16g.wrote_line_text',
 ]
 RULE = ('one evaluation = one monitor command executed through the real Monitor.onecmd inside a script. '
         'non-trivial = the command wrote at least one cell, wrote a file, printed at least one cell, or was '
@@ -58,10 +63,23 @@ RULE = ('one evaluation = one monitor command executed through the real Monitor.
         'the start address, boundary class of the end address, length class, data/file length class, '
         'terminal width class) tuples among those')
 TRUSTED = [
-    'hand model lean/Py65/Model/MonMem.lean (monitor.py _fill/do_fill/do_load/do_save/do_mem transcribed line '
-    'by line on tokenised arguments) over Py65.Model.ObsMem and Py65.Model.AddrParser -- tied to the real '
-    'Monitor only by this sampled correspondence (parsed output of every command, complete backing list, '
-    'putc stream, breakpoint list, width, pc)',
+    'REGENERATED on every run: Monitor._fill (the one-address extension with clipping at addrMask, the `while '
+    'address <= end` loop with `address &= self.addrMask`, `filler[index] & self.byteMask`, the index wrap, the '
+    'three numbers of the "Wrote" line) is translated from the current py65/monitor.py by harness/py2lean_mon.py '
+    'into lean/Py65/Gen/MonFillGen.lean; Py65.Proofs.MonFillGenEq.fill_eq proves the generated method equal to '
+    'the hand model MonMem.fill for ALL arguments (hypothesis: a proper range ends at or below addrMask -- '
+    'guaranteed by the address parser; fill_diverges shows the loop does not terminate otherwise), and '
+    'Py65.Props.C16g restates fill_exact / fill_exact_aliasing / load_exact for the generated method.  A source '
+    'change that breaks the equality, or that the translator refuses, is a broken tie',
+    'hand model lean/Py65/Model/MonMem.lean (monitor.py do_fill/do_load/do_save/do_mem transcribed line '
+    'by line on tokenised arguments; _fill also hand-modelled, see above) over Py65.Model.ObsMem and '
+    'Py65.Model.AddrParser -- tied to the real Monitor by this sampled correspondence (parsed output of every '
+    'command, complete backing list, putc stream, breakpoint list, width, pc)',
+    'harness/py2lean_mon.py (Python subset -> Lean; CPython evaluation order for the accepted subset is modelled, '
+    'not verified) and the library helpers the generated text calls, lean/Py65/Model/MonGenRt.lean: list indexing '
+    '(pyGetItem), %d / %0Nx conversions (pyFmtD, pyFmtX), ObservableMemory item store (Model.ObsMem.set); '
+    'self.addrMask / byteMask / addrFmt are the device constants of MonMem.Dev (the translator checks that _reset '
+    'still copies them from the device and that nothing else assigns them)',
     'Python facts modelled, not verified: shlex.split (the harness only sends lines whose shlex.split is the '
     'token list it intends and asserts that), cmd.Cmd dispatch, %-formatting, bytes slicing [0::2]/[1::2], zip, '
     'bytearray, open/read/write of files, slice.indices',
@@ -78,6 +96,10 @@ ASSUMPTIONS = [
     'files: existing regular files; for `top` at most as many words as the address space holds',
     'labels empty, radix 16 (labels and radices are C15), terminal width as set by the width command (>= 10)',
     'memory cells hold values in [0, 2^BYTE_WIDTH) (true of every cell the monitor or a device writes)',
+    'tie by regeneration covers Monitor._fill only; do_fill / do_load / do_save / do_mem (shlex, files, the address '
+    'parser, the output wrapping) remain hand-modelled and tied by correspondence.  The generated while loop is '
+    'fuel-bounded: fill_eq holds for every fuel above the length of the range and needs `end <= addrMask` for a '
+    'proper range (do_fill guarantees it: the parser raises OverflowError first); a one-address range needs nothing',
 ]
 
 GETC, PUTC = 0xF004, 0xF001
@@ -88,6 +110,12 @@ DEVS = {
 }
 SEEDS = [-1, 11, 29]
 _TEMPLATES = {}
+
+
+def pre_build(ctx):
+    """translator tie: regenerate lean/Py65/Gen/MonFillGen.lean from the current monitor.py"""
+    from props import montie
+    return montie.pre_build(ctx, 'fill')
 
 
 def template(dev, seed):
